@@ -343,6 +343,106 @@ pub fn run_swap(c: &SwapCase) -> Outcome {
 	o
 }
 
+// ---------------------------------------------------------------------------------------------
+// Events that are equal to one another (same tags, same metadata) are still separate events
+
+#[derive(Clone, Debug, Serialize, Deserialize)]
+pub struct IdenticalCase {
+	pub throttle: u16,
+	/// (gap ms before it, which of 3 event contents: 0 = path + kind, 1 = signal, 2 = another path + kind)
+	pub sends: Vec<(u16, u8)>,
+}
+
+pub fn run_identical(c: &IdenticalCase) -> Outcome {
+	use std::sync::{Arc, Mutex};
+	use std::time::{Duration, Instant};
+	use watchexec_events::{filekind::{CreateKind, FileEventKind}, Event, Priority, Source, Tag};
+	use watchexec_signals::Signal;
+	let mut o = Outcome::pass();
+	let content = |k: u8| -> Event {
+		match k % 3 {
+			0 => Event {
+				tags: vec![Tag::Source(Source::Filesystem), Tag::FileEventKind(FileEventKind::Create(CreateKind::File)), Tag::Path { path: "/vh/same/a.txt".into(), file_type: None }],
+				metadata: Default::default(),
+			},
+			1 => Event { tags: vec![Tag::Source(Source::Os), Tag::Signal(Signal::User1)], metadata: Default::default() },
+			_ => Event {
+				tags: vec![Tag::Source(Source::Filesystem), Tag::FileEventKind(FileEventKind::Create(CreateKind::File)), Tag::Path { path: "/vh/same/b.txt".into(), file_type: None }],
+				metadata: Default::default(),
+			},
+		}
+	};
+	let rt = tokio::runtime::Builder::new_multi_thread().worker_threads(2).enable_all().build().unwrap();
+	let (got, batches, main): ([usize; 3], usize, String) = rt.block_on(async {
+		let config = watchexec::Config::default();
+		config.throttle(Duration::from_millis(u64::from(c.throttle)));
+		let seen: Arc<Mutex<(Vec<Event>, usize)>> = Arc::new(Mutex::new((Vec::new(), 0)));
+		{
+			let seen = seen.clone();
+			config.on_action(move |mut action| {
+				let quit = action.events.iter().any(|e| crate::wxrun::id_of(e) == Some(crate::wxrun::QUIT_ID));
+				let mut g = seen.lock().unwrap();
+				g.1 += 1;
+				g.0.extend(action.events.iter().cloned());
+				drop(g);
+				if quit {
+					action.quit();
+				}
+				action
+			});
+		}
+		let wx = watchexec::Watchexec::with_config(config).expect("with_config");
+		let mut main = wx.main();
+		let mut want = [0usize; 3];
+		for (gap, k) in &c.sends {
+			if *gap > 0 {
+				tokio::time::sleep(Duration::from_millis(u64::from(*gap))).await;
+			}
+			let _ = wx.send_event(content(*k), Priority::Normal).await;
+			want[usize::from(*k % 3)] += 1;
+		}
+		let count = |seen: &Arc<Mutex<(Vec<Event>, usize)>>| -> [usize; 3] {
+			let g = seen.lock().unwrap();
+			[0u8, 1, 2].map(|k| g.0.iter().filter(|e| **e == content(k)).count())
+		};
+		let until = Instant::now() + Duration::from_millis(1500 + 3 * u64::from(c.throttle));
+		while Instant::now() < until && count(&seen) != want {
+			tokio::time::sleep(Duration::from_millis(3)).await;
+		}
+		tokio::time::sleep(Duration::from_millis(30 + u64::from(c.throttle))).await;
+		let _ = tokio::time::timeout(Duration::from_secs(2), wx.send_event(crate::wxrun::make_event(crate::wxrun::QUIT_ID, 0), Priority::Urgent)).await;
+		let main = match tokio::time::timeout(Duration::from_secs(5), &mut main).await {
+			Err(_) => {
+				main.abort();
+				"hang".to_string()
+			}
+			Ok(Ok(Ok(()))) => "ok".to_string(),
+			Ok(other) => format!("{other:?}"),
+		};
+		let b = seen.lock().unwrap().1;
+		(count(&seen), b, main)
+	});
+	rt.shutdown_timeout(Duration::from_millis(200));
+	let mut want = [0usize; 3];
+	for (_, k) in &c.sends {
+		want[usize::from(*k % 3)] += 1;
+	}
+	o.nontrivial = want.iter().any(|n| *n >= 2);
+	if c.sends.windows(2).any(|w| w[0].1 % 3 == w[1].1 % 3) {
+		o.label("equal-events-back-to-back");
+	}
+	if main != "ok" {
+		o.fail("identical:main", format!("main task: {main}\ncase {c:?}"));
+	} else if got != want {
+		let lost = (0..3).any(|k| got[k] < want[k]);
+		o.fail(
+			if lost { "accepted-event-never-delivered" } else { "delivered-twice" },
+			format!("events equal to one another were sent {want:?} times (per content) and handed to the handler {got:?} times, in {batches} batches\ncase {c:?}"),
+		);
+	}
+	o
+}
+
 fn swap_strategy() -> BoxedStrategy<SwapCase> {
 	let ev = (prop_oneof![3 => Just(0u16), 1 => Just(3), 1 => Just(40)], 0u8..4, proptest::bool::weighted(0.1));
 	(
@@ -393,6 +493,21 @@ pub fn check(e: &Engine) {
 		&run_swap,
 	);
 	e.require_label("filter-swap", "filters-differ-between-phases", 0.7);
+	e.explore(
+		"identical-events",
+		LegOpts::realtime(
+			e.tier.pick(200, 4_000),
+			16,
+			"2-8 events drawn from three fixed contents (a path with a kind, a signal, another path with a kind: no distinguishing id, so equal events are really equal), gaps 0-40 ms, throttle 0/25/80 ms: each content is handed to the handler exactly as often as it was sent; non-trivial = some content sent twice or more",
+		),
+		&|| {
+			(prop_oneof![Just(0u16), Just(25), Just(80)], proptest::collection::vec((prop_oneof![3 => Just(0u16), 1 => Just(2), 1 => Just(40)], 0u8..3), 2..9))
+				.prop_map(|(throttle, sends)| IdenticalCase { throttle, sends })
+				.boxed()
+		},
+		&run_identical,
+	);
+	e.require_label("identical-events", "equal-events-back-to-back", 0.5);
 	e.require_label("real-sources", "signals", 0.7);
 	e.require_label("real-sources", "keyboard-eof", 0.1);
 	e.require_label("ledger", "2+batches", 0.3);
